@@ -312,6 +312,15 @@ def handle (line : String) : Except String (String × Bool) := do
       match found with
       | some (gp, gm) => pure ("1:" ++ ",".intercalate (gp.map toString) ++ ":" ++ ",".intercalate (gm.map toString), true)
       | none => pure ("0", true)
+    | "cfront" =>
+      -- all Pareto-minimal c-representations inside the cube [0..B]^k (each tested exactly by the box test)
+      let n ← pnat
+      let B ← pnat
+      let D ← listOf pcond
+      let Ω := allWorlds n
+      let reps := (boxVectors (D.map fun _ => B)).filter (isCRepB Ω D)
+      let front := reps.filter fun η => reps.all fun η' => η' == η || !((List.zip η' η).all fun p => p.1 ≤ p.2)
+      pure (";".intercalate (front.map fun η => ",".intercalate (η.map toString)), true)
     | "rmsup" =>
       let m ← pnat
       let mut X : List (List Cond) := []
